@@ -24,6 +24,12 @@ deriving Repr, BEq, DecidableEq, Inhabited
 
 abbrev Res := Except Err
 
+instance instDecEqExcept {ε α : Type} [DecidableEq ε] [DecidableEq α] : DecidableEq (Except ε α)
+  | .ok a, .ok b => if h : a = b then isTrue (by rw [h]) else isFalse (by intro h'; cases h'; exact h rfl)
+  | .error a, .error b => if h : a = b then isTrue (by rw [h]) else isFalse (by intro h'; cases h'; exact h rfl)
+  | .ok _, .error _ => isFalse (by intro h; cases h)
+  | .error _, .ok _ => isFalse (by intro h; cases h)
+
 def Res.isOk {α : Type} : Res α → Bool
   | .ok _ => true
   | .error _ => false
@@ -62,11 +68,13 @@ def checkInputTypes (d : OpDesc) (ins : List (Option DType)) : Res Unit :=
   checkTypesFrom d.constraints 0 ins
 
 /-- `ops.ValidateInputs`. -/
-def validateInputs (d : OpDesc) (ins : List (Option DType)) : Res (List (Option DType)) := do
-  let padLength ← checkNInputs d ins.length
-  let padded := padInputs ins padLength
-  checkInputTypes d padded
-  return padded
+def validateInputs (d : OpDesc) (ins : List (Option DType)) : Res (List (Option DType)) :=
+  match checkNInputs d ins.length with
+  | .error e => .error e
+  | .ok padLength =>
+    match checkInputTypes d (padInputs ins padLength) with
+    | .error e => .error e
+    | .ok () => .ok (padInputs ins padLength)
 
 /-- `Concat.ValidateInputs`: the descriptor is rebuilt from the call. -/
 def concatDesc (n : Nat) : OpDesc :=
@@ -75,11 +83,13 @@ def concatDesc (n : Nat) : OpDesc :=
 
 /-- `PRelu.ValidateInputs`: the generic gate, then slope and x must share the element type.
 A nil tensor at one of the two (required) positions is a nil dereference in Go. -/
-def preluValidate (d : OpDesc) (ins : List (Option DType)) : Res (List (Option DType)) := do
-  let r ← validateInputs d ins
-  match r[0]?, r[1]? with
-  | some (some x), some (some s) => if x = s then .ok r else .error .invalidTensor
-  | _, _ => .error .panic
+def preluValidate (d : OpDesc) (ins : List (Option DType)) : Res (List (Option DType)) :=
+  match validateInputs d ins with
+  | .error e => .error e
+  | .ok r =>
+    match r[0]?, r[1]? with
+    | some (some x), some (some s) => if x = s then .ok r else .error .invalidTensor
+    | _, _ => .error .panic
 
 /-- The gate of operator `name` as the registry `reg` defines it. -/
 def gate (reg : List OpDesc) (name : String) (ins : List (Option DType)) :
